@@ -18,7 +18,7 @@ func init() {
 			"(1) prefix bytes untouched and the source's observation unchanged by Encode; (2) decoded mapping Equals the source's and the decoded observation is bitwise the source's (bin-for-bin through the fold model when the target is bounded); arbitrary float weights: per bin |decoded-v| <= ulp(v+1); (3) X.DecodeAndMergeWith(Encode(Y)) is identical to X.MergeWith(Y); (4) decoding Encode(A)||Encode(B)||... equals merging A, B, ...; (5) the independent parser recovers the model content. " +
 			"Non-trivial = encoding with >=2 store blocks or a layout other than contiguous counts; distinct = hash of the histories.",
 		Cases:     core.Scale(40000, 1000000),
-		Mandatory: []string{"oracle.roundtrip_equalities", "oracle.append_only_checks", "oracle.source_unchanged", "oracle.decode_merge_equivalence", "oracle.concatenation_checks", "oracle.independent_parse", "oracle.lossy_weight_checks", "layout.positive.index_deltas", "layout.positive.index_deltas_and_counts", "layout.positive.contiguous_counts", "decode.omitted_mapping", "decode.into_bounded_target", "wide.bins_more_than_2^31_apart"},
+		Mandatory: []string{"oracle.roundtrip_equalities", "oracle.append_only_checks", "oracle.source_unchanged", "oracle.decode_merge_equivalence", "oracle.concatenation_checks", "oracle.independent_parse", "oracle.lossy_weight_checks", "layout.positive.index_deltas", "layout.positive.index_deltas_and_counts", "layout.positive.contiguous_counts", "decode.omitted_mapping", "decode.into_bounded_target", "wide.bins_more_than_2^31_apart", "fine_weights.nine_byte_varfloats", "decode.exact_encoding_with_plain_decoder"},
 		Assumptions: []string{
 			"dyadic weights under the exactness budget survive the (v+1)-1 transform exactly",
 		},
@@ -31,7 +31,7 @@ func init() {
 			"direction 2 (documentation -> implementation): streams generated from the documented grammar (blocks in any order, three bin layouts, N=0, negative/zero/large deltas and strides, repeated indexes, repeated zero-count/store/identical mapping blocks, statistics blocks interleaved) are decoded by DecodeDDSketch / DecodeDDSketchWithExactSummaryStatistics / DecodeAndMergeWith into every store kind; content must equal the sum the documentation assigns. " +
 			"Also: the plain decoder accepts exact-summary encodings with identical bins. Non-trivial = stream with >=3 blocks and >=2 distinct layouts or a non-unit stride; distinct = hash of the stream.",
 		Cases:     core.Scale(120000, 3000000),
-		Mandatory: []string{"oracle.independent_parse", "oracle.independent_parse.exact", "oracle.grammar_streams_decoded", "oracle.plain_decoder_on_exact_encoding", "grammar.stride_nonunit", "grammar.stride_negative", "grammar.stride_zero", "grammar.repeated_index", "grammar.empty_block", "grammar.mapping_last", "grammar.mapping_repeated", "grammar.statistics_blocks", "grammar.deltas_beyond_int32", "decoder.exact", "decoder.merge_into_nonempty"},
+		Mandatory: []string{"oracle.independent_parse", "oracle.independent_parse.exact", "oracle.grammar_streams_decoded", "oracle.plain_decoder_on_exact_encoding", "grammar.stride_nonunit", "grammar.stride_negative", "grammar.stride_zero", "grammar.repeated_index", "grammar.empty_block", "grammar.mapping_last", "grammar.mapping_repeated", "grammar.statistics_blocks", "grammar.deltas_beyond_int32", "grammar.all_zero_block", "decoder.exact", "decoder.merge_into_nonempty"},
 		Assumptions: []string{
 			"the reference codec in /verif/harness/internal/wire is itself faithful to the format documentation",
 		},
@@ -131,9 +131,100 @@ func runC06Wide(c *core.Ctx) {
 	}
 }
 
+// runC06FineWeights: weights that are multiples of 2^-52 below one survive the (v+1)-1 transform exactly but need
+// the longest varfloat encodings (9 bytes, last byte with its high bit set). Exact-summary encodings are also
+// read by the plain decoder.
+func runC06FineWeights(c *core.Ctx) {
+	r := c.R
+	m := gen.RandMap(r, true)
+	exact := r.P(0.7)
+	spec := gen.RandPlainStore(r)
+	s := mon.NewSketch(exact, m.M, spec)
+	md := mon.NewSketchModel(m, spec)
+	total := 0.0
+	for i, n := 0, r.Range(1, 3); i < n; i++ {
+		w := math.Ldexp(float64(r.U64()>>12|1), -52) / 4 // odd multiple of 2^-54.. keep below 1/4 each
+		w = math.Ldexp(math.Floor(math.Ldexp(w, 52)), -52)
+		if w == 0 || total+w >= 1 {
+			continue
+		}
+		v := m.ClampIn(r.LogUniform(0.01, 100))
+		if r.P(0.3) {
+			v = -v
+		}
+		if r.P(0.15) {
+			v = 0
+		}
+		c.SigF(v)
+		c.SigF(w)
+		if err := s.I().AddWithCount(v, w); err != nil {
+			c.Failf("AddWithCount.rejected", "AddWithCount(%v,%v): %v", v, w, err)
+			return
+		}
+		md.Add(v, w)
+		total += w
+	}
+	if total == 0 {
+		return
+	}
+	omit := r.Bool()
+	var e []byte
+	if c.Guard("Encode", func() { s.I().Encode(&e, omit) }) {
+		return
+	}
+	nine := false
+	if blocks, err := wire.Parse(e); err == nil {
+		for i := range blocks {
+			for _, f := range blocks[i].Fields {
+				if f.Kind == "varfloat" && f.End-f.Start == 9 {
+					nine = true
+				}
+			}
+		}
+	}
+	if nine {
+		c.Count("fine_weights.nine_byte_varfloats", 1)
+	}
+	c.Logf("fine weights: exact=%v %s store %s total %v, %d bytes", exact, m.Desc, spec, total, len(e))
+	for _, dec := range []bool{false, true} {
+		if dec && !exact {
+			continue
+		}
+		for tk := 0; tk < 3; tk++ {
+			target := gen.StoreSpec{Kind: tk}
+			var d mon.Sketch
+			var derr error
+			if c.Guard("Decode", func() { d, derr = mon.Decode(dec, e, target, m.M) }) {
+				return
+			}
+			c.Count("oracle.roundtrip_equalities", 1)
+			if !dec && exact {
+				c.Count("decode.exact_encoding_with_plain_decoder", 1)
+			}
+			if derr != nil {
+				c.Failf("decode.error", "decoding (exact decoder=%v) a valid encoding of a sketch (exact=%v) whose weights are multiples of 2^-52 returned %v", dec, exact, derr)
+				return
+			}
+			tm := mon.NewSketchModel(m, target)
+			tm.Merge(md)
+			mon.CheckSketchBins(c, "fine:"+target.KindName(), d, tm)
+			if c.Failed() {
+				return
+			}
+		}
+	}
+	if nine {
+		c.NonTrivial()
+	}
+}
+
 func runC06(c *core.Ctx) {
 	if c.Index%40 == 39 {
 		runC06Wide(c)
+		return
+	}
+	if c.Index%40 == 19 {
+		runC06FineWeights(c)
 		return
 	}
 	r := c.R
@@ -491,6 +582,13 @@ func runC07ArbitraryWeights(c *core.Ctx) {
 	if r.P(0.3) {
 		s.I().Reweight([]float64{0.1, 0.3, 1.7, 1e-3}[r.Intn(4)])
 	}
+	if r.P(0.25) {
+		// bins whose weight underflowed to zero
+		s.I().AddWithCount(vs.vals[r.Intn(len(vs.vals))], 1e-300)
+		s.I().AddWithCount(m.ClampIn(r.LogUniform(1e-3, 1e3)), 1e-300)
+		s.I().Reweight(1e-30)
+		c.Count("arbitrary.underflowed_bins", 1)
+	}
 	var e []byte
 	omit := r.P(0.3)
 	if c.Guard("Encode", func() { s.I().Encode(&e, omit) }) {
@@ -654,6 +752,15 @@ func genGrammarStream(c *core.Ctx, r *rng.Rng, m *gen.Map, centre int, withStats
 			blocks = append(blocks, b)
 		}
 	}
+	if r.P(0.15) {
+		// a block holding only zero counts
+		typ := byte(wire.TypePositive)
+		if r.Bool() {
+			typ = wire.TypeNegative
+		}
+		blocks = append(blocks, wire.Block{Flag: wire.Flag(typ, wire.SubBinsContiguous), First: int64(centre + r.Range(-300, 300)), Stride: 1, Counts: make([]float64, r.Range(1, 70))})
+		c.Count("grammar.all_zero_block", 1)
+	}
 	for i := r.Pick(3, 3, 1); i > 0; i-- {
 		blocks = append(blocks, wire.Block{Flag: wire.Flag(wire.TypeFeature, wire.SubZeroCount), Value: budget.Weight(r, 8, 1)})
 	}
@@ -815,6 +922,17 @@ func runC07Doc2Impl(c *core.Ctx) {
 		mon.CheckSketchBinsOnly(c, "grammar:"+target.KindName(), d, want)
 		if c.Failed() {
 			return
+		}
+		if !exactDecoder {
+			// emptiness and count must agree with what the stream holds (blocks of zero counts hold nothing)
+			if got, wantEmpty := d.I().IsEmpty(), want.Total() == 0; got != wantEmpty {
+				c.Failf("grammar.isempty", "decoded sketch reports IsEmpty()=%v, the stream holds total weight %v (into %s)", got, want.Total(), target)
+				return
+			}
+			if got := d.I().GetCount(); got != want.Total() {
+				c.Failf("grammar.count", "decoded GetCount()=%v, the stream holds total weight %v", got, want.Total())
+				return
+			}
 		}
 		if exactDecoder && !intoNonEmpty {
 			ct := wire.ContentOf(back)
